@@ -11,7 +11,7 @@ require (
 
 require (
 	github.com/gogo/protobuf v1.3.2
-	github.com/golang/protobuf v1.5.4 // indirect
+	github.com/golang/protobuf v1.5.4
 )
 
 replace github.com/CrowdStrike/csproto => /repo
